@@ -241,6 +241,15 @@ func ParseSpecFile(fset *token.FileSet, f *ast.File) (*SpecFile, error) {
 		case "end":
 			cur, curLemma, curAudit, curMon = nil, nil, nil, nil
 		case "audit":
+			// audit initonly g1, g2, T.f: package-level variables (and struct fields) written by the package
+			// initialiser only - no function of the package stores to them, updates the maps they hold or lets
+			// them escape
+			if strings.HasPrefix(rest, "initonly ") {
+				curAudit = &Audit{Kind: "initonly", Names: splitTop(strings.TrimPrefix(rest, "initonly ")), Line: d.line, File: sf.Path, Text: rest}
+				sf.Audits = append(sf.Audits, curAudit)
+				cur, curLemma, curMon = nil, nil, nil
+				break
+			}
 			// audit atomic <Type>.<field>
 			f := strings.Fields(rest)
 			if len(f) != 2 || f[0] != "atomic" || strings.Count(f[1], ".") != 1 {
